@@ -36,6 +36,30 @@ class Part:
         """hashable signature of a history if non-trivial, else None (for distinct_nontrivial)."""
         return None
 
+    def run_pair(self, exe, hist, model_ok):
+        """Run implementation and model on one history -> (impl_out, impl_outcome, impl_err, model_out, model_outcome, model_err).
+        Default: both consume the same op lines.  Two-phase parts (e.g. wire images: the model decodes what the
+        implementation wrote) override `model_lines` / `expected_model_out`, or this whole method."""
+        io, ioc, ierr = core.run_impl(exe, hist, self.harness_args, timeout=self.timeout)
+        if model_ok and self.compare_model and self.model_exe:
+            ml = self.model_lines(hist, io)
+            mo, moc, merr = core.run_model(self.model_exe, self.family, ml, timeout=self.timeout)
+            io_cmp = self.expected_model_out(hist, io)
+        else:
+            mo, moc, merr, io_cmp = [], "skipped", "", io
+        self._last_expected = io_cmp
+        return io, ioc, ierr, mo, moc, merr
+
+    def model_lines(self, hist, impl_out):
+        return hist
+
+    def expected_model_out(self, hist, impl_out):
+        return impl_out
+
+    def diff(self, hist, impl_out, model_out):
+        """index of the first disagreement between what the model printed and what the implementation implies, or None"""
+        return core.first_diff(self.expected_model_out(hist, impl_out), model_out, self.cmp)
+
     def safety_is_violation(self, outcome):
         """sanitizer/timeout/crash outcomes of the real code under valid API use count as failing inputs."""
         return True
@@ -66,12 +90,7 @@ def safe_oracle(part, h, io):
 
 
 def _run_one(part, exe, hist, model=True):
-    io, ioc, ierr = core.run_impl(exe, hist, part.harness_args, timeout=part.timeout)
-    if model and part.compare_model and part.model_exe:
-        mo, moc, merr = core.run_model(part.model_exe, part.family, hist, timeout=part.timeout)
-    else:
-        mo, moc, merr = [], "skipped", ""
-    return io, ioc, ierr, mo, moc, merr
+    return part.run_pair(exe, hist, model)
 
 
 def corpus_histories(pid, partname):
@@ -149,7 +168,7 @@ def run_check(spec, tier, seed, replay=None):
         mok = model_ok.get(part.model_exe, False)
         io, ioc, ierr, mo, moc, merr = _run_one(part, exe, lines, mok)
         bad = safe_oracle(part, lines, io) if ioc == "ok" else [("safety:" + ioc, ierr[-500:], len(io))]
-        d = core.first_diff(io, mo, part.cmp) if (mok and part.compare_model and moc == "ok") else None
+        d = part.diff(lines, io, mo) if (mok and part.compare_model and moc == "ok") else None
         for key, what, idx in bad:
             print("replay: property fails at op %d: %s %s" % (idx, key, what))
             rep.violation(key, dict(kind="oracle", part=part.name), lines, True, what)
@@ -202,9 +221,10 @@ def run_check(spec, tier, seed, replay=None):
                     all_mismatches.append((part, name, h, len(mo), "<impl ok>", "<model %s> %s" % (moc, merr[-300:])))
                     mism_names.add(name)
                 else:
-                    d = core.first_diff(io, mo, part.cmp)
+                    d = part.diff(h, io, mo)
                     if d is not None:
-                        all_mismatches.append((part, name, h, d, io[d] if d < len(io) else "<missing>", mo[d] if d < len(mo) else "<missing>"))
+                        ex = part.expected_model_out(h, io)
+                        all_mismatches.append((part, name, h, d, ex[d] if d < len(ex) else "<missing>", mo[d] if d < len(mo) else "<missing>"))
                         mism_names.add(name)
             nk = part.nontrivial_key(h, io)
             if nk is not None:
@@ -293,7 +313,7 @@ def run_check(spec, tier, seed, replay=None):
 
                 def fails(c, part=part, exe=exe):
                     io, ioc, _, mo, moc, _ = _run_one(part, exe, c, True)
-                    return ioc == "ok" and moc == "ok" and core.first_diff(io, mo, part.cmp) is not None
+                    return ioc == "ok" and moc == "ok" and part.diff(c, io, mo) is not None
                 small = core.ddmin(h[:d + 1], fails, budget=80)
                 rep.violation("correspondence", dict(kind="correspondence", source=name, part=part.name, op_index=d, impl=il[:300], model=ml[:300]),
                               small, False, "model and implementation diverge (op %d of %s)" % (d, name))
